@@ -75,6 +75,7 @@ func main() {
 	case "maploops":
 		listMapLoops()
 	case "check", "lock":
+		partialRun = *only != ""
 		os.Exit(runCheck(cmd == "lock", *repo, *verif, *prop, *tier, *only, *dump, !*noCache, seed, *evidenceOut, *showAll))
 	default:
 		fmt.Fprintln(os.Stderr, "unknown command", cmd)
